@@ -9,6 +9,12 @@ import (
 	"context"
 	"database/sql"
 	"fmt"
+	"github.com/shutter-network/rolling-shutter/rolling-shutter/keyperimpl/gnosis"
+	"github.com/shutter-network/rolling-shutter/rolling-shutter/medley/beaconapiclient"
+	"io"
+	"net/http"
+	"strconv"
+	"strings"
 
 	"github.com/ethereum/go-ethereum/common"
 
@@ -43,6 +49,7 @@ func main() {
 			agg.Require("pointer_updates_self", 300)
 			agg.Require("outdated_pointer_starts", 100)
 			agg.Require("self_produced_sent", 50)
+			agg.Require("triggers_via_real_slot_flow", 500)
 			agg.Require("self_produced_dropped", 50)
 		},
 	})
@@ -67,6 +74,26 @@ func runCase(env *vlib.Env, idx int, rep *vlib.Reporter) {
 		}
 		defer n.Close()
 		nodes = append(nodes, n)
+	}
+	// the real slot flow (maybeTriggerDecryption) needs a beacon node for the proposer duties, a
+	// registered proposer and the sync position of the sequencer events
+	http.DefaultClient.Transport = fakeBeacon{}
+	bc, err := beaconapiclient.New("http://beacon.verif")
+	if err != nil {
+		rep.Inconclusive("beacon client: " + err.Error())
+		return
+	}
+	for _, n := range nodes {
+		n.GnosisKeyper = gnosis.VerifNewKeyper(n.GnosisConfig, n.Pool, n.Trigger, bc)
+		q := gnosisdb.New(n.Pool)
+		if err := q.InsertValidatorRegistration(ctx, gnosisdb.InsertValidatorRegistrationParams{BlockNumber: 1, BlockHash: []byte{1}, ValidatorIndex: proposerIndex, Nonce: 0, IsRegistration: true}); err != nil {
+			rep.Inconclusive("validator registration: " + err.Error())
+			return
+		}
+		if err := q.SetTransactionSubmittedEventsSyncedUntil(ctx, gnosisdb.SetTransactionSubmittedEventsSyncedUntilParams{BlockHash: []byte{2}, BlockNumber: w.Activation, Slot: 0}); err != nil {
+			rep.Inconclusive("sync position: " + err.Error())
+			return
+		}
 	}
 	// queue
 	nq := []int{0, 1, 2, 3, 5, 8, 14}[r.Intn(7)]
@@ -157,9 +184,17 @@ func runCase(env *vlib.Env, idx int, rep *vlib.Reporter) {
 		switch {
 		case op < 4: // slot trigger on both keypers
 			slot++
-			ops += "T"
+			viaSlotFlow := slot < 1<<62 && r.Chance(1, 2)
+			if viaSlotFlow {
+				ops += "N" // the real new-slot flow: age increment, then the trigger
+			} else {
+				ops += "T"
+			}
 			var contents [2][]byte
 			for i, n := range nodes {
+				if viaSlotFlow && ptrs[i].Exists && ptrs[i].AgeKnown {
+					ptrs[i].Age++
+				}
 				wasOutdated := ptrs[i].Exists && (!ptrs[i].AgeKnown || ptrs[i].Age > maxAge)
 				start := ptrs[i].Start(maxAge, int64(nq))
 				if wasOutdated {
@@ -168,7 +203,14 @@ func runCase(env *vlib.Env, idx int, rep *vlib.Reporter) {
 				want := refimpl.GnosisSelect(queue, start, slot, gasLimit)
 				var terr error
 				desc := fmt.Sprintf("%s ops=%s slot=%d keyper=%d", shape, ops, slot, i)
-				if rep.Guard("panic:trigger", desc, func() { terr = n.GnosisKeyper.VerifTriggerDecryption(ctx, slot, w.Activation+1, keyperSet) }) {
+				if rep.Guard("panic:trigger", desc, func() {
+					if viaSlotFlow {
+						terr = n.GnosisKeyper.VerifMaybeTriggerDecryption(ctx, slot)
+						rep.Obs("triggers_via_real_slot_flow", 1)
+					} else {
+						terr = n.GnosisKeyper.VerifTriggerDecryption(ctx, slot, w.Activation+1, keyperSet)
+					}
+				}) {
 					return
 				}
 				if terr != nil {
@@ -397,4 +439,27 @@ func renderIDs(ids [][]byte, q []refimpl.QueuedTx, slot uint64) string {
 		}
 	}
 	return s + "]"
+}
+
+const proposerIndex = 7
+
+// fakeBeacon answers the proposer-duties request of the beacon API: validator 7 proposes every slot.
+type fakeBeacon struct{}
+
+func (fakeBeacon) RoundTrip(req *http.Request) (*http.Response, error) {
+	const prefix = "/eth/v1/validator/duties/proposer/"
+	if !strings.HasPrefix(req.URL.Path, prefix) {
+		return &http.Response{StatusCode: 404, Body: io.NopCloser(strings.NewReader("")), Header: http.Header{}}, nil
+	}
+	epoch, _ := strconv.ParseUint(strings.TrimPrefix(req.URL.Path, prefix), 10, 64)
+	var sb strings.Builder
+	sb.WriteString(`{"dependent_root":"0x00","execution_optimistic":false,"data":[`)
+	for i := uint64(0); i < 16; i++ {
+		if i > 0 {
+			sb.WriteString(",")
+		}
+		fmt.Fprintf(&sb, `{"pubkey":"0x00","validator_index":"%d","slot":"%d"}`, proposerIndex, epoch*16+i)
+	}
+	sb.WriteString("]}")
+	return &http.Response{StatusCode: 200, Body: io.NopCloser(strings.NewReader(sb.String())), Header: http.Header{"Content-Type": []string{"application/json"}}}, nil
 }
